@@ -112,6 +112,10 @@ def fix_multi_trim_curves(obj, **kwargs):
         # Get the trims
         trims = o.trims
 
+        # The end points of the trim curves are compared in the parametric space of the surface, each direction relative
+        # to its own range
+        upar = _unit_square_map(get_par_box(o.domain))
+
         # Initialize a list for the connected trims
         new_trims = []
 
@@ -142,26 +146,25 @@ def fix_multi_trim_curves(obj, **kwargs):
                 # 5. the ends of the curves are far away from each other
                 ###
 
+                p1, p2 = upar(trim[idx].evalpts[0]), upar(trim[idx].evalpts[-1])
+                p3, p4 = upar(trim[idx2].evalpts[0]), upar(trim[idx2].evalpts[-1])
+
                 # End of 1st curve vs start of 2nd curve
-                if abs(trim[idx].evalpts[-1][0] - trim[idx2].evalpts[0][0]) <= tol and \
-                        abs(trim[idx].evalpts[-1][1] - trim[idx2].evalpts[0][1]) <= tol:
+                if abs(p2[0] - p3[0]) <= tol and abs(p2[1] - p3[1]) <= tol:
                     # They are in the same direction
                     new_trim.append(trim[idx])
                 # End of 1st curve vs end of 2nd curve
-                elif abs(trim[idx].evalpts[-1][0] - trim[idx2].evalpts[-1][0]) <= tol and \
-                        abs(trim[idx].evalpts[-1][1] - trim[idx2].evalpts[-1][1]) <= tol:
+                elif abs(p2[0] - p4[0]) <= tol and abs(p2[1] - p4[1]) <= tol:
                     # Reverse the second curve inplace
                     trim[idx2].reverse()
                     new_trim.append(trim[idx])
                 # Start of 1st curve and start of 2nd curve
-                elif abs(trim[idx].evalpts[0][0] - trim[idx2].evalpts[0][0]) <= tol and \
-                        abs(trim[idx].evalpts[0][1] - trim[idx2].evalpts[0][1]) <= tol:
+                elif abs(p1[0] - p3[0]) <= tol and abs(p1[1] - p3[1]) <= tol:
                     # Reverse the first curve inplace
                     trim[idx].reverse()
                     new_trim.append(trim[idx])
                 # Start of 1st curve and end of 2nd curve
-                elif abs(trim[idx].evalpts[0][0] - trim[idx2].evalpts[-1][0]) <= tol and \
-                        abs(trim[idx].evalpts[0][1] - trim[idx2].evalpts[-1][1]) <= tol:
+                elif abs(p1[0] - p4[0]) <= tol and abs(p1[1] - p4[1]) <= tol:
                     # Reverse both curves inplace
                     trim[idx].reverse()
                     trim[idx2].reverse()
@@ -169,8 +172,8 @@ def fix_multi_trim_curves(obj, **kwargs):
                 # The trim curves are far away from each other
                 else:
                     # Find which end is closer to the current trim curve's end point
-                    dist1 = linalg.point_distance(trim[idx].evalpts[-1], trim[idx2].evalpts[0])
-                    dist2 = linalg.point_distance(trim[idx].evalpts[-1], trim[idx2].evalpts[-1])
+                    dist1 = linalg.point_distance(p2, p3)
+                    dist2 = linalg.point_distance(p2, p4)
 
                     # Find start and end points of the connector curve
                     start_pt = trim[idx].evalpts[-1]
